@@ -2532,6 +2532,9 @@ def parse_config(bindings, skip_unknown=False):
             if not skip_unknown:
               raise
             _print_unknown_import_message(statement, e)
+        # Record the import right away: it has taken effect (and `config_str`
+        # must show it) even if a later statement of this file fails.
+        _IMPORTS.update(parse_context.imports)
       elif isinstance(statement, config_parser.IncludeStatement):
         with utils.try_with_location(statement.location):
           nested_includes = parse_config_file(statement.filename, skip_unknown)
@@ -2539,10 +2542,9 @@ def parse_config(bindings, skip_unknown=False):
       else:
         raise AssertionError(
             'Unrecognized statement type {}.'.format(statement))
-    # Update recorded imports. Using the context's recorded imports ignores any
-    # `from __gin __ ...` statements used to enable e.g. dynamic registration.
+    # Using the context's recorded imports ignores any `from __gin __ ...`
+    # statements used to enable e.g. dynamic registration.
     imports.extend(statement.module for statement in parse_context.imports)
-    _IMPORTS.update(parse_context.imports)
   return includes, imports
 
 
